@@ -75,6 +75,111 @@ def oracle_steps(tlines):
     return bad, n
 
 
+def mask_runs_ref(words):
+    """the maximal runs of set bits of a mask given as 8 words of 64 bits: [(idx, count)], increasing"""
+    m = 0
+    for i, w in enumerate(words):
+        m |= (w & ((1 << 64) - 1)) << (64 * i)
+    runs = []; k = 0; n = 64 * len(words)
+    while k < n:
+        if (m >> k) & 1:
+            j = k
+            while j < n and (m >> j) & 1: j += 1
+            runs.append((k, j - k)); k = j
+        else:
+            k += 1
+    return runs
+
+
+def oracle_runs(flines):
+    """implementation-side oracle for the run iteration (independent of the Coq model): `F cm_runs` (mi_commit_mask_foreach) must
+    visit exactly the maximal runs of set bits, in order, each once; `F cm_next_run` must return the first maximal run at or
+    after idx (its remainder when idx lies inside a run), or (512, 0)"""
+    bad = []; n = collections.Counter()
+    def hexw(ws): return "[" + " ".join("%x" % w for w in ws) + "]"
+    for l in flines:
+        f = l.split()
+        if len(f) < 3 or f[0] != "F": continue
+        if f[1] == "cm_runs":
+            ws = [int(x) for x in f[2:10]]; got = [int(x) for x in f[12:]]
+            got = list(zip(got[0::2], got[1::2])); ref = mask_runs_ref(ws)
+            n["cm_runs"] += 1; n["cm_runs_multiword"] += (sum(1 for w in ws if w) >= 2)
+            if got != ref and len(bad) < 40:
+                miss = [r for r in ref if r not in got]; extra = [r for r in got if r not in ref]
+                bad.append(("foreach-runs", "mi_commit_mask_foreach does not visit exactly the maximal runs of set bits: visited %s, the mask has %s (not visited: %s; "
+                            "visited but not a maximal run: %s)" % (got, ref, miss, extra),
+                            "mi_commit_mask_foreach(&cm, idx, count) with cm.mask (8 words of 64 bits, hex, word 0 first) = %s" % hexw(ws), len(ref)))
+        elif f[1] == "cm_next_run":
+            ws = [int(x) for x in f[2:10]]; idx = int(f[10]); got = (int(f[12]), int(f[13]))
+            exp = (512, 0)
+            for (i, c) in mask_runs_ref(ws):
+                if i + c > idx:
+                    exp = (max(i, idx), i + c - max(i, idx)); break
+            n["cm_next_run"] += 1
+            if got != exp and len(bad) < 40:
+                bad.append(("next-run", "_mi_commit_mask_next_run returned (idx=%d, count=%d); the first run of set bits at or after %d is (idx=%d, count=%d)" % (got + (idx,) + exp),
+                            "_mi_commit_mask_next_run(&cm, &idx) with idx=%d and cm.mask (hex, word 0 first) = %s" % (idx, hexw(ws)), len(mask_runs_ref(ws))))
+    bad.sort(key=lambda b: b[3])      # the simplest mask first
+    return [b[:3] for b in bad], n
+
+
+def scatter_shape(d):
+    """coverage classes of the pending purge mask of a scatter round"""
+    ws = [int(x, 16) for x in d["pending_words"].split(".")]
+    runs = mask_runs_ref(ws)
+    multi = sum(1 for w in ws if w) >= 2
+    # the pattern that a stale bit offset misses: a run ends at bit k>0 of a word, nothing later in that word, and the next run starts at a bit < k of a later word
+    desc = any(((i + c) % 64) != 0 and (j // 64) > ((i + c) // 64) and (j % 64) < ((i + c) % 64) for (i, c), (j, _) in zip(runs, runs[1:]))
+    asc = any((j // 64) > ((i + c - 1) // 64) and (j % 64) >= ((i + c) % 64) for (i, c), (j, _) in zip(runs, runs[1:]))
+    boundary = any(i % 64 == 0 or (i + c) % 64 == 0 or (i // 64) != ((i + c - 1) // 64) for (i, c) in runs)
+    return multi, desc, asc, boundary, len(runs)
+
+
+def describe_slices(spec):
+    """'395+1,43+2' -> 'slices 395 (mask word 6 bit 11), 43..44 (word 0 bits 43..44)'"""
+    out = []
+    for t in spec.split(","):
+        i, c = [int(x) for x in t.split("+")]
+        out.append("%d%s (mask word %d bit %d%s)" % (i, "" if c == 1 else "..%d" % (i + c - 1), i // 64, i % 64, "" if c == 1 else " to word %d bit %d" % ((i + c - 1) // 64, (i + c - 1) % 64)))
+    return "slice" + ("s " if len(out) > 1 or "+1" not in spec else " ") + ", ".join(out)
+
+
+def oracle_scatter(tlines):
+    """T scatter records of harness/t_purge.c S: per-slice bookkeeping of the harness vs the purging calls the shim saw"""
+    found = {}; n = collections.Counter()
+    for l in tlines:
+        kind, d = oslib.kv(l)
+        if kind != "scatter":
+            continue
+        multi, desc, asc, boundary, nruns = scatter_shape(d)
+        n["checks"] += 1; n["step:%s/%s" % (d["step"], d["expect"])] += 1
+        if d["step"] == "free":
+            n["rounds"] += 1; n["rounds_multiword_mask"] += multi; n["rounds_later_run_at_lower_bit"] += desc; n["rounds_later_run_at_higher_bit"] += asc
+            n["rounds_run_touches_word_boundary"] += boundary; n["runs_total"] += nruns
+        hist = ("`t_purge S %d %d %d %d` (harness/t_purge.c, built as tools/props/C18.py does), last round (%d): purge_delay=%dms purge_decommits=%d purge_extend_delay=%dms, virtual clock. One 32MiB segment is filled with pages "
+                "(first slice+slices, s=small m=medium L=large): %s. History (t = virtual ms since the frees; every step is ordinary, non-forced activity): %s "
+                "The freed pages are slices %s, i.e. the pending purge mask (8 words of 64 bits, hex, word 0 first) is %s; the delay including extensions has "
+                "passed at t+%d." % (d["seed"], d["delay"], d["decommits"], d["round"] + 1, d["round"], d["delay"], d["decommits"], d["extend"], d["layout"], d["history"], d["pending"],
+                                     d["pending_words"], d["deadline_rel"]))
+        size = len(d["victims"].split(",")) * 100 + len(d["history"])
+        def fail(key, text):
+            if key not in found or found[key][0] > size:
+                found[key] = (size, key, text, hist + " Observed at step `%s` (t+%d): %s" % (d["step"], d["since_free"], text))
+        if d["expect"] == "all" and d["missing"] != "-":
+            fail("not-purged:scatter", "freed pages that stayed unused for longer than the delay were not purged by non-forced activity: %s never reached madvise "
+                 "(the segment's purge mask is %s afterwards, so they will not be purged later either)" % (describe_slices(d["missing"]), d["impl_purge_mask"]))
+        if d["expect"] == "none" and d["early"] != "-":
+            what = "purge_delay=-1 disables purging" if d["delay"] < 0 else "only %dms of the %dms delay had passed" % (d["since_free"], d["delay"])
+            fail("purged-early:scatter", "freed pages were purged although %s: %s" % (what, describe_slices(d["early"])))
+        if d["livehit"] != "-":
+            fail("purged-live:scatter", "a purge (madvise DONTNEED/FREE or mprotect PROT_NONE) hit memory that is in use (pages with live blocks or the segment header): %s" % describe_slices(d["livehit"]))
+        if d["content_bad"] != 0:
+            fail("content-lost:scatter", "%d live blocks lost their contents after the purge (first: %s)" % (d["content_bad"], d["content_first"]))
+        if d["expect"] == "expiry":
+            fail("expiry-out-of-range:scatter", "segment purge_expire is %dms after the frees, expected between delay=%d and %d" % (d["expire_rel"], d["delay"], d["deadline_rel"]))
+    return [found[k][1:] for k in sorted(found)], n
+
+
 def run(res, a):
     proofs_ok = vlib.proof_stage(res, "C18", extra_targets=["Properties/C13mask.vo"])
     thorough = (a.tier == "thorough")
@@ -92,6 +197,8 @@ def run(res, a):
     lines = out.splitlines()
     fl = [l for l in lines if l.startswith(("F ", "K "))]; tl = [l for l in lines if l.startswith("T ")]
     bad, tc = oracle_mask(tl)
+    bad2, rc_ = oracle_runs(fl)
+    bad = bad + bad2; tc.update(rc_)
     for key, text, wit in bad:
         res.violation("impl:" + key, text, witness=wit)
     F += fl; T += tl; dist["f_mask"] = dict(collections.Counter(l.split()[1] for l in fl if l.startswith("F ")))
@@ -126,6 +233,28 @@ def run(res, a):
             T += tl
             if delay == 10 and dec == 1:
                 samples += [l for l in tl if "step=" in l][:3]
+    # (2b) scattered page frees inside one segment: pending purge masks with runs in several 64-bit words
+    scat_count = collections.Counter()
+    for delay in (10, 5, 0, -1):
+        for dec in (1, 0):
+            rounds = (400 if delay > 0 else 100) if thorough else (50 if delay > 0 else 12)
+            ok, rc, out, err = oslib.run_harness(exe, ["S", a.seed * 16 + (delay + 1) * 2 + dec, delay, dec, rounds])
+            if not ok:
+                any_bad = True
+                res.violation("harness-crash", "t_purge S %d %d exited with %d: %s" % (delay, dec, rc, err[-600:]),
+                              witness="`t_purge S %d %d %d %d`: purge_delay=%d purge_decommits=%d: the scattered-page-free workload of harness/t_purge.c crashes" % (
+                                  a.seed * 16 + (delay + 1) * 2 + dec, delay, dec, rounds, delay, dec)); continue
+            lines = out.splitlines()
+            tl = [l for l in lines if l.startswith("T ")]
+            F += [l for l in lines if l.startswith(("F ", "K "))]
+            bad, sc = oracle_scatter(tl)
+            scat_count.update(sc)
+            for key, text, wit in bad:
+                any_bad = True
+                res.violation("impl:" + key, text, witness=wit)
+            T += tl
+            if delay == 10 and dec == 1:
+                samples += [l[:600] for l in tl if "step=try_purge-at-expiry" in l][:1]
     # (3) regression scenarios of `arena-global-expiry-reset` (repaired by c59c73f): a pending arena must be purged by
     #     NON-forced passes once its own expiry and the re-armed global expiry have passed
     scen = {"two-arenas": ("X", "two arenas A,B (mi_reserve_os_memory_ex, 4 blocks each, exclusive), default options (arena delay 100ms); "
@@ -166,11 +295,16 @@ def run(res, a):
                        "bitmaps, expiry times, options and virtual `now`; resulting masks/bitmaps/expiry fields, the system calls seen by the OS shim "
                        "and sampled page states must equal the extracted Coq model's. T records: implementation-side oracle (rounding inside/covering; "
                        "per workload step: nothing purged before the delay, everything purged at the delay by non-forced activity, delay 0 immediate, "
-                       "delay -1 never). distinct = distinct record lines")
+                       "delay -1 never; run iteration: mi_commit_mask_foreach/_mi_commit_mask_next_run visit exactly the maximal runs of set bits "
+                       "(reference computed in Python from the mask words); scattered page frees (t_purge S): whole small/medium/large pages freed at "
+                       "PRNG slice positions biased to the word boundaries of the commit mask, so that the pending purge mask has runs in several "
+                       "64-bit words in both orders of bit position; per slice of the segment: freed pages not purged before the delay, all of them "
+                       "purged once the extended delay has passed and a page free / page allocation / mi_segment_try_purge(seg,false) happened, no "
+                       "purging call on a slice in use, contents of live blocks intact). distinct = distinct record lines")
     res.cov["traces_validated_against_impl"] = nrec
     res.cov["disagreements_checked"] = len(mism)
     res.cov["input_distribution"] = {"F": dist, "T_steps": {"%s/%s/%s" % k: v for k, v in step_count.items()},
-                                     "T_mask": dict(tc), "option_matrix": "purge_delay in {-1,0,5,10} x purge_decommits in {0,1}; F records draw purge_delay from {-1,0,1,5,10,100}, arena_purge_mult {0,1,3,10}, purge_extend_delay {0,1,3}"}
+                                     "T_mask": dict(tc), "T_scatter": dict(scat_count), "option_matrix": "purge_delay in {-1,0,5,10} x purge_decommits in {0,1}; F records draw purge_delay from {-1,0,1,5,10,100}, arena_purge_mult {0,1,3,10}, purge_extend_delay {0,1,3}"}
     res.cov["models_used"] = ["Model/Os.v", "Model/Mask.v", "Model/Purge.v"]
     res.add_samples([s[:600] for s in samples])
     res.assumptions += ["release configuration: _mi_prim_decommit is madvise(MADV_DONTNEED) without mprotect (needs_recommit=false)",
